@@ -55,8 +55,11 @@ struct Outcome {
    std::vector<Finding> findings;
    bool nontrivial = false;
    std::map<std::string, long> classes;   // counters merged into the evidence
-   void fail(const std::string& sig, const std::string& msg)
+   void fail(const std::string& sig_in, const std::string& msg)
    {
+      std::string sig = sig_in;   // a signature is one word (the driver reads it as the second word of a SIG line)
+      for (auto& ch : sig)
+         if (ch == ' ' || ch == '\t' || ch == '\n') ch = '-';
       for (auto& f : findings)
          if (f.signature == sig) return;
       findings.push_back({sig, msg});
